@@ -22,7 +22,7 @@ Record job := mkJob { j_id : Z; j_op : op; j_faults : list fault }.
 
 (* a running handler: the job, what is left of its program, the faults left; ghosts used by the proofs only: the
    store's value for the job's key when the handler began, whether a store callback / any call has been made *)
-Record running := mkRun { r_job : job; r_prog : prog; r_fs : list fault; r_sv0 : option Z; r_touched : bool; r_started : bool }.
+Record running := mkRun { r_job : job; r_prog : prog; r_fs : list fault; r_sv0 : val; r_touched : bool; r_started : bool }.
 
 Record wrk := mkWrk {
   k_st : wst;                         (* cache and store part *)
@@ -33,7 +33,7 @@ Record wrk := mkWrk {
 }.
 
 Inductive answer :=
-  | AFast (v : Z)                                   (* DoGet answered by the caller-side cache read *)
+  | AFast (v : val)                                 (* DoGet answered by the caller-side cache read *)
   | ARefused (e : err)                              (* q.closed / q.full *)
   | APanic                                          (* negative worker index *)
   | AQueued                                         (* the caller is now waiting for its result *)
@@ -125,6 +125,6 @@ Fixpoint grun (c : gcfg) (deep : nat) (g : mach) (ls : list glabel) : option (ma
       end
   end.
 
-Definition mcache_at (c : gcfg) (g : mach) (k : Z) : option Z := c_peek (wc (k_st (g (loc_of c k)))) k.
-Definition mstore_at (c : gcfg) (g : mach) (k : Z) : option Z := smap (wsr (k_st (g (loc_of c k)))) k.
-Definition mcommitted_at (c : gcfg) (g : mach) (k : Z) : option Z := k_committed (g (loc_of c k)) k.
+Definition mcache_at (c : gcfg) (g : mach) (k : Z) : option val := c_peek (wc (k_st (g (loc_of c k)))) k.
+Definition mstore_at (c : gcfg) (g : mach) (k : Z) : val := smap (wsr (k_st (g (loc_of c k)))) k.
+Definition mcommitted_at (c : gcfg) (g : mach) (k : Z) : val := k_committed (g (loc_of c k)) k.
